@@ -521,15 +521,23 @@ static Result run_fit(const json &c) {
       pts.push_back(knots[k]);
       if (k + 1 < nk) pts.push_back(0.5 * (knots[k] + knots[k + 1]));
     }
+    double worst = 0;
     for (double xe : pts) {
       ld ex = ref_eval(knots, f, f2, xe);
       double s = sp->Calculate(xe);
-      if (!(fabsl((ld)s - ex) <= 1e-8 * scale)) {
-        r.fail(cname_of(type) + "::Fit/reproduction", fmt("%zu knots, %zu data points on a function of the spline space: S(%.17g)=%.15g, function %.15Lg (tol %.3g)",
-                                                          nk, xd.size(), xe, s, ex, 1e-8 * scale));
+      // a backward-stable least-squares solve loses cond(A) ~ 1/h^2 digits (the curvature columns of the fit matrix scale
+      // like h^2); solving through the normal equations loses cond^2.  Bound: 256 eps / hmin^2, never looser than 1e-8.
+      const double rtol = std::min(1e-8, std::max(1e-13, 256 * EPS / (kg.hmin * kg.hmin)));
+      double err = double(fabsl((ld)s - ex));
+      worst = std::max(worst, err / (rtol * scale));
+      if (!(err <= rtol * scale)) {
+        r.fail(cname_of(type) + "::Fit/reproduction", fmt("%zu knots (h=%.3g), %zu data points on a function of the spline space: S(%.17g)=%.15g, function %.15Lg (tol %.3g)",
+                                                          nk, kg.hmin, xd.size(), xe, s, ex, rtol * scale));
         return r;
       }
     }
+    r.cls(worst < 1e-3 ? "fit-error/tol<1e-3" : worst < 1e-2 ? "fit-error/tol<1e-2" : worst < 0.03 ? "fit-error/tol<0.03" : worst < 0.1 ? "fit-error/tol<0.1" : worst < 0.3 ? "fit-error/tol<0.3" : "fit-error/tol<1");
+    if (nk >= 60) r.cls("fine-fit-grid(>=60 knots)");
   }
   // (2) normal equations on the constrained space: sum_i res_i phi_j(x_i) = 0 for every basis function phi_j
   for (size_t j = 0; j < nk; ++j) {
@@ -577,6 +585,10 @@ static json gen_fit() {
   int nint = rcount(type == "cubic" ? 2 : 1, 24);
   double mn = pick<double>({0.0, 0.0, 0.25, -2.0, 10.0});
   double step = rbool(50) ? double(ri(1, 64)) / 64.0 : double(ri(1, 100)) / 100.0;
+  if (rbool(6)) {  // fine fit grids (force matching uses 0.01..0.02 nm over 1 nm and more)
+    nint = ri(60, 200);
+    step = pick<double>({0.005, 0.01, 0.02, 1.0 / 64, 1.0 / 128, 0.05});
+  }
   double mx = rbool(60) ? mn + double(nint) * step : mn + (double(nint) + double(ri(8, 56)) / 64.0) * step;
   c["type"] = type;
   c["fitgrid"] = {mn, step, mx};
